@@ -467,6 +467,7 @@ CHECK = Check(
         "or channels afterwards; once both peers are closed no library task is pending, no *-decoder thread lives and the loop "
         "reported no unretrieved task exception. Non-trivial = close() began while a negotiation call was in flight or "
         "ICE/DTLS/SCTP were still connecting."
+        " Case dimensions added: a second close() overlapping the first on the same connection, a stand-in decoder still busy for 60 ms of real time per thread (threads attributed to their connection, judged when close() returns), a peer that only sends a DTLS close_notify, senders whose counters are about to pass 2^32, a path whose datagram send suspends."
     ),
     families=[
         Family("interruptions", run_close, close_case, quick=3000, thorough=40000, min_shard=10),
